@@ -799,8 +799,35 @@ impl<E: Effect> Executor<E> {
 
     /// The initial answers to a select's await query have arrived: from now on the select may be
     /// woken by messages and completions again. Returns whether the process was waiting for them.
-    pub fn initial_await_answered(&mut self, id: ProcessId) -> bool {
-        self.awaiting_initial.remove(&id)
+    ///
+    /// `answered` are the processes the answer reports on. An answer can be stale — left over from
+    /// an earlier select of the same process that has already completed through a same-worker
+    /// notification — so it only counts if it covers exactly the current select's await targets.
+    pub fn initial_await_answered(&mut self, id: ProcessId, answered: &[ProcessId]) -> bool {
+        if !self.awaiting_initial.contains(&id) {
+            return false;
+        }
+        let targets: HashSet<ProcessId> = self
+            .get_process(id)
+            .and_then(|p| p.select_state.as_ref())
+            .map(|state| {
+                state
+                    .sources
+                    .iter()
+                    .filter_map(|source| match source {
+                        Value::Process(target, _) => Some(*target),
+                        _ => None,
+                    })
+                    .collect()
+            })
+            .unwrap_or_default();
+        let answered: HashSet<ProcessId> = answered.iter().copied().collect();
+        if targets == answered {
+            self.awaiting_initial.remove(&id);
+            true
+        } else {
+            false
+        }
     }
 
     /// Notify a process that an effect operation completed
@@ -902,7 +929,7 @@ impl<E: Effect> Executor<E> {
         // have parked in `spawning`, waiting for its NotifySpawn with its Spawn instruction still
         // current. Re-queueing it here would execute that Spawn a second time on a stack whose
         // operands are already consumed.
-        if self.selecting.remove(&id) {
+        if !self.awaiting_initial.contains(&id) && self.selecting.remove(&id) {
             self.queue.push_back(id);
         }
     }
